@@ -1,14 +1,20 @@
 """C01 — Static extraction is faithful to the source.
 
-(T) Gen/C01_tables.v regenerated from visitor.py (decorator->label tables, shape of decorators_to_labels) and
-    mixins.py (visibility ladders) on every run.
-(C) visitor machine (model) vs griffe.visit on generated source: members tree (name, kind, parent, lineno/endlineno,
-    labels, runtime flag, docstring identity, alias target, imports, exports, member order) and the extension event trace.
-    Generated visibility ladders (model) vs the real predicates on the objects of the generated modules.
-(O) level semantics / declarative bindings (spec side of the theorems) vs CPython: executing the module and reading
-    vars(); the survivor rule on straight-line levels.
-direct: griffe.visit vs the source itself (CPython ast / exec as authority): bound names, kinds, span slicing
-    re-parses to the definition, docstring text/span, type-guard flag, exports, event discipline, totality.
+(T) Gen/C01_tables.v regenerated from visitor.py (decorator->label tables, shape of decorators_to_labels) and mixins.py
+    (visibility ladders); Gen/C01_dispatch.v regenerated from visitor.py / agents/nodes/assignments.py / ast.py (which node
+    kinds have a visit_ method and what it is, which targets get_name accepts, conditional / guard parent kinds, ...).
+(C) visitor machine (model, fed with RAW ast nodes that Coq lowers by the regenerated dispatch tables) vs griffe.visit on
+    generated source: members tree incl. the members of __init__ function objects (name, kind, parent, lineno/endlineno,
+    labels, runtime flag, docstring span, alias target, imports, exports, member order) and the extension event trace;
+    the declarative member tables (spec side of theorems C01_member_table*) vs every module / class / __init__ object;
+    Coq lowering vs the harness's own lowering; generated visibility ladders vs the real predicates.
+(O) level semantics / declarative bindings vs CPython (exec + vars()); layout model: render = the source text, number =
+    CPython's line numbers, reported spans = CPython's positions, slicing verdicts; documented decorator table mirror.
+direct: griffe.visit vs the source itself (CPython ast / exec as authority): bound names, kinds, span slicing re-parses to
+    the definition, docstring text/span, attribute-docstring and forwarding rule, type-guard flag, labels vs the documented
+    table, exports, event discipline, totality.
+history: sequences of modules in one fresh interpreter, varied order; every failure re-evaluated in a fresh interpreter
+    and, when it depends on earlier visits, reported as a minimised self-contained history.
 """
 from __future__ import annotations
 
@@ -27,38 +33,67 @@ from pathlib import Path
 from harness.translate import c01_dispatch, c01_tables
 
 ID = "C01"
-LEVEL_TEXT = ("Theorems for all statement lists of an abstract statement language (def/class/assign/annassign/__all__ +=/import/from-import/if/"
-              "block/handler/docstring statement, any nesting, any duplication): the stack-and-flag visitor machine (frame stack = Visitor.current, "
-              "mutable type_guarded saved/restored by visit_if, events, Python errors) computes exactly a recursive level semantics in which the "
-              "type-guard flag is an inherited attribute true only in the body of a module/class-level `if TYPE_CHECKING`; at module level and for "
-              "every class statement at any depth the member names are exactly the bound names in first-binding order and kind / first line / runtime "
-              "flag are those of the binding surviving Griffe's tie-break (later wins, conditional attribute re-assignment kept out); the extension "
-              "trace is well bracketed with parents first; no statement list makes the visitor raise; the visibility ladders regenerated from "
-              "mixins.py equal the documented table on all 15360 inputs (findings F1-F5, F7 repaired; F6, overload-only names have no member, stays "
-              "known with a computed witness). Model tied to the code on every run by differential runs on generated "
-              "modules (tree, spans, labels, docstrings, flags, imports, exports, event trace) plus direct checks against CPython's ast/exec.")
-LEVEL_NOTE = ("Trusted: Coq kernel, extraction, translator harness/translate/c01_tables.py, the harness abstraction ast -> stmt (resolves decorator "
-              "heads and ClassVar through module-level imports, computes import paths for a parentless module and __all__ items), CPython ast/exec "
-              "as authority. Modelled, not verified: expression contents (C03), overload buffer / setter attachment (C02; only their effect on "
-              "membership and labels is kept), annotation forwarding, members of functions (discarded by the model, not compared). The surviving-kind "
-              "theorems exclude accessor decorators (x.setter: C02). Label and docstring content has no theorem; it is "
-              "covered by correspondence and direct checks only. Source text <-> ast positions are CPython's.")
+LEVEL_TEXT = ("25 theorems (all closed under the global context) about a Gallina model of the static visitor, for ALL statement lists of an abstract "
+              "statement language (def/class/assign/annassign/__all__ +=/import/from-import/if/block/handler/docstring statement; any nesting, any "
+              "duplication): (1) the stack-and-flag visitor machine (frame stack = Visitor.current, mutable type_guarded saved/restored by visit_if, "
+              "events, Python errors) computes exactly a recursive level semantics in which the type-guard flag is an inherited attribute true only "
+              "in the body of a module/class-level `if TYPE_CHECKING`; it never raises; the extension trace is well bracketed, parents first. "
+              "(2) The complete member TABLE -- names, their order, and per member kind, line span, runtime flag, labels, docstring span, alias "
+              "target -- equals a declarative fold (`run_table`/`step`) over the bindings of the level in source order: at module level, for every "
+              "class statement at any depth (attributes assigned through self.<name> in its __init__ are instance attributes of the class) and for "
+              "the function object of every __init__ (which keeps the defs, classes and imports of its body as members); no accessor hypothesis "
+              "any more (x.setter / @overload are rules of `step`); the older statements (bound names once each in first-binding order, surviving "
+              "kind/line/flag) follow, and the detailed bindings provably refine the plain ones. (3) Decorator-derived labels, for every decorator "
+              "list: a label is present iff the documented table gives it for the callable path of one of the decorators (the tables regenerated "
+              "from visitor.py are proved equal to the documented table for every path), plus `async`; the labels form a set. (4) Attribute "
+              "docstring, for every statement list: the candidate handed to a statement is exactly the string statement at the next index of the "
+              "same list (its constant's span). (5) Raw modules (AST nodes tagged by class name) are lowered inside Coq by the dispatch tables "
+              "regenerated from visitor.py / assignments.py (which kinds have a visit_ method, which targets get_name accepts, which parents make a "
+              "re-assignment conditional, ...): all theorems hold for every raw module; a node kind without visit_ method is transparent; an "
+              "assignment binds nothing as soon as one target is rejected. (6) Source text: for every layout tree (gap / decorator / header / "
+              "continuation / parenthesis lines, any nesting) slicing the rendered lines by a reported span returns exactly the item's text "
+              "(function/class from the first decorator line, property-attribute from the def line, docstring = the string constant's lines), and "
+              "every member's reported span is the span of an item defining that very name with that kind. (7) The visibility ladders regenerated "
+              "from mixins.py equal the documented table on all 15360 inputs. Findings F1-F5, F7 repaired; F6 (overload-only names have no member) "
+              "stays known with a computed witness. Model tied to the code on every run: two translators (fail closed), differential runs on "
+              "generated modules (tree incl. function-object members, spans, labels, docstring spans, flags, imports, exports, event trace; "
+              "declarative tables vs every class/__init__ object; layout render/number/spans vs the text and CPython's positions), sequences of "
+              "modules in one fresh interpreter in varied order, and direct checks against CPython's ast/exec.")
+LEVEL_NOTE = ("Trusted: Coq kernel, extraction, the two translators (harness/translate/c01_tables.py, c01_dispatch.py: whitelisted AST shapes), the "
+              "payload reading of the harness (raw node -> line numbers, resolved decorator heads and ClassVar through module-level imports, import "
+              "paths for a parentless module, __all__ items, text of an if-test; the structural decisions are made in Coq from the regenerated "
+              "tables and cross-checked against the harness's own lowering), the cutting of a source into a layout tree (checked on every run: "
+              "render = the text, number = CPython's line numbers), CPython ast/exec as authority. Modelled, not verified: expression contents "
+              "(C03), overload buffer / setter-deleter objects (C02; their effect on membership and labels is in `step`), annotation forwarding. "
+              "The layout model covers block-form sources (one statement per line, bodies on their own lines); source text <-> ast positions are "
+              "CPython's. The 'documented decorator table' is a hand-written table (doc_labels) that the regenerated tables are proved equal to. "
+              "A difference confined to the members of __init__ function objects or to docstring forwarding shapes outside the direct checks is "
+              "reported as a broken tie, not with a failing input. History effects: a failure is only reported after it reproduced in a fresh "
+              "interpreter, alone or after a minimised list of earlier modules.")
 MODEL = ("Model.C01_run", "run_C01_all")
-COQ_TARGETS = ["Proofs/C01_visitor.vo", "Proofs/C01_vis.vo", "Proofs/C01_content.vo", "Proofs/C01_raw.vo", "Model/C01_run.vo"]
+COQ_TARGETS = ["Proofs/C01_visitor.vo", "Proofs/C01_vis.vo", "Proofs/C01_content.vo", "Proofs/C01_raw.vo", "Proofs/C01_layout.vo", "Model/C01_run.vo"]
 RULE = ("seeded random structural modules (nesting <=4; name pool of 11 (incl. _t__, z__) with forced duplicates; decorators from the label tables, overload, "
-        "accessor, unknown; docstrings in every legal position incl. attribute docstrings, after if/for/try bodies, also parenthesised over several lines, "
-        "concatenated across lines or followed by a comment line; conditional placement in "
+        "accessor, unknown, over one or several lines; docstrings in every legal position incl. attribute docstrings, after if/for/try bodies, also "
+        "parenthesised over several lines, concatenated across lines or followed by a comment line; layout noise: blank / comment lines at any "
+        "indentation in front of statements and between decorators, headers continued over two lines; conditional placement in "
         "if/elif/else, TYPE_CHECKING (plain, typing., negated, nested), try/except/else/finally, for/while/else, with, match; __init__ "
-        "instance attributes incl. conditional, annotated, dotted, tuple; __all__ forms incl. +=, concatenation, empty, annotated; imports: "
-        "plain, dotted, as, from, star, relative, self-referencing; module or package __init__ file). A second grammar-based stream of "
-        "syntactically valid modules over all statement kinds is checked for totality only. A case is non-trivial when it has a duplicate "
-        "name, a conditional block or a nested scope; distinct by source text")
-TRUSTED = ["translator harness/translate/c01_tables.py (whitelisted AST shapes of visitor.py tables / mixins.py ladders; fails closed)",
-           "abstraction: harness walk over ast.parse(source) into the model's stmt language (decorator head resolution through module-level "
-           "imports, relative import paths for a parentless module, __all__ item extraction)"]
+        "instance attributes incl. conditional, annotated, dotted, tuple, and defs/classes/imports inside __init__; __all__ forms incl. +=, "
+        "concatenation, empty, annotated; imports: plain, dotted, as, from, star, relative, self-referencing; module or package __init__ file); "
+        "batches visited in shuffled order in one process. History stream: sequences of 2-4 small modules rich in state-carrying features "
+        "(decorated coroutines, overloads, property/setter idioms, __all__) visited in ONE fresh interpreter, each sequence in two orders, every "
+        "visit compared with the model and the direct checks; any failure of any stream is re-evaluated alone in a fresh interpreter and, if it "
+        "passes there, reported as a delta-debugged self-contained history. A grammar-based stream of syntactically valid modules over all "
+        "statement kinds is checked for totality (and exercises the generic lowering of every node kind). A case is non-trivial when it has "
+        "a duplicate name, a conditional block or a nested scope; distinct by source text")
+TRUSTED = ["translators harness/translate/c01_tables.py and c01_dispatch.py (whitelisted AST shapes of visitor.py tables and dispatch, mixins.py "
+           "ladders, assignments.py name maps, ast.py helpers; fail closed)",
+           "payload reading: harness walk over ast.parse(source) into raw nodes (line numbers, decorator head resolution through module-level "
+           "imports, relative import paths for a parentless module, __all__ item extraction, if-test text); lowering itself is done in Coq",
+           "layout cutting: harness splits the source lines by CPython positions; render/number are checked against text and ast on every run"]
 ASSUMPTIONS = ["decorator heads and ClassVar are resolved through module-level imports only (the generator never shadows them)",
-               "one statement per line in generated modules, so (name, line) identifies a binding occurrence"]
-TRANSLATOR_NAME = "harness/translate/c01_tables.py"
+               "one statement per line in generated modules, so (name, line) identifies a binding occurrence",
+               "layout theorems speak about block-form sources (body of a compound statement on its own lines)"]
+TRANSLATOR_NAME = "harness/translate/c01_tables.py + c01_dispatch.py"
 
 TC_TESTS = {"TYPE_CHECKING", "typing.TYPE_CHECKING"}
 
@@ -213,7 +248,20 @@ class Abstraction:
             return ["block", [["sub", False, self.stmts(c.body)] for c in s.cases]]
         if isinstance(s, ast.Expr) and isinstance(s.value, ast.Constant) and isinstance(s.value.value, str):
             return ["doc", s.value.lineno, s.value.end_lineno]      # the string constant's own span, not the statement's
+        if isinstance(s, ast.Expr):
+            c = all_method_call(s)
+            if c is not None and c[0] == "__all__" and c[1] in ("extend", "append") and c[2]:
+                return ["augall", self.all_items(s.value.args[0])]
         return ["other"]
+
+
+def all_method_call(s):
+    """Expression statement `<recv>.<method>(args...)` -> (receiver name or "", method, has first positional argument)."""
+    call = s.value
+    if isinstance(call, ast.Call) and isinstance(call.func, ast.Attribute):
+        recv = call.func.value.id if isinstance(call.func.value, ast.Name) else ""
+        return recv, call.func.attr, len(call.args) > 0
+    return None
 
 
 def abstract_module(src: str, mname: str, is_init: bool):
@@ -265,6 +313,10 @@ class RawAbstraction(Abstraction):
             return ["if", ast.unparse(s.test)]
         if isinstance(s, ast.Expr) and isinstance(s.value, ast.Constant) and isinstance(s.value.value, str):
             return ["doc", s.value.lineno, s.value.end_lineno]
+        if isinstance(s, ast.Expr):
+            c = all_method_call(s)          # whether it is an extension of __all__ is decided in Coq (all_receiver, all_methods)
+            if c is not None:
+                return ["call", c[0], c[1], c[2], self.all_items(s.value.args[0]) if c[2] else []]
         return ["none"]
 
     def rnode(self, s, top=False):
@@ -533,7 +585,7 @@ PREAMBLE = [
     "import os",
     "from typing import overload, TYPE_CHECKING, ClassVar",
     "from functools import cached_property",
-    "def deco(fn): return fn",
+    "def deco(fn):\n    return fn",
 ]
 FUNC_DECOS = ["property", "staticmethod", "classmethod", "functools.cache", "functools.lru_cache(maxsize=None)", "abc.abstractmethod",
               "deco", "cached_property", "functools.cached_property", "typing.overload", "overload", "functools.wraps(deco)"]
@@ -615,7 +667,21 @@ class Gen:
         if len(self.lines) == n0:
             self.emit(ind, "pass")
 
+    def maybe_gap(self, ind):
+        """layout noise in front of a statement: blank lines, comment lines at any indentation"""
+        r = self.rng.random()
+        if r < 0.06:
+            self.lines.append("")
+            self.features.add("gap")
+        elif r < 0.11:
+            self.lines.append("    " * self.rng.randint(0, ind + 1) + "# note " + str(self.uid()))
+            self.features.add("gap")
+        elif r < 0.13:
+            self.lines += ["", "    " * self.rng.randint(0, ind) + "# note", ""]
+            self.features.add("gap")
+
     def statement(self, kind, depth, ind):
+        self.maybe_gap(ind)
         r = self.rng.random()
         deep = depth >= self.maxdepth
         if kind == "init":
@@ -733,11 +799,19 @@ class Gen:
         a, b = self.name(), self.name()
         forms = [f'__all__ = ["{a}", "{b}"]', f'__all__ = ("{a}",)', f'__all__ += ["{a}"]', f'__all__ = ["{a}"] + ["{b}"]',
                  f'__all__: list[str] = ["{a}"]', "__all__ = []", f'__all__ = ["{a}", *["{b}"]]', f'__all__ += ("{b}",)',
-                 f'__all__ = {{"{a}", "{b}"}}' if not self.exe else f'__all__ = ["{b}"]']
+                 f'__all__ = {{"{a}", "{b}"}}' if not self.exe else f'__all__ = ["{b}"]',
+                 f'__all__.extend(["{a}"])', f'__all__.append("{b}")', f'__all__.extend(("{a}", "{b}"))', f'__all__ = ["{b}"]']
         if not self.exe:
             forms += [f'__all__ = os.__all__ + ["{a}"]', f"__all__ = [{a}, \"{b}\"]", f'__all__ = [x for x in "{a}"]', '__all__ = ["a", 1]',
-                      f'__all__ -= ["{a}"]', "__all__: list[str]"]
-        self.emit(ind, self.rng.choice(forms))
+                      f'__all__ -= ["{a}"]', "__all__: list[str]",
+                      "__all__.extend(os.__all__)", f"__all__.extend({a})", f"__all__.append({b})", "__all__.extend()", "__all__.append(1)",
+                      f'os.__all__.extend(["{a}"])', f'other.extend(["{a}"])', f'__all__.remove("{a}")', f'__all__.extend(["{a}"], ["{b}"])',
+                      f'__all__.extend(*["{a}"])', f'__all__.extend(x for x in "{a}")', f'__all__.extend(["{a}"] + os.__all__)',
+                      f'__all__.append(os.{a})', f'extend(["{a}"])', f'__all__.extend(names=["{a}"])']
+        form = self.rng.choice(forms)
+        if "__all__." in form or form.startswith(("other.", "extend(")):
+            self.features.add("__all__-method")
+        self.emit(ind, form)
         self.maybe_attr_doc(ind)
 
     def imports(self, kind, ind):
@@ -772,12 +846,23 @@ class Gen:
             if decos and any(d in ("classmethod", "staticmethod", "abc.abstractmethod") for d in decos) and len(decos) > 1:
                 decos = decos[:1]
         for d in decos:
-            self.emit(ind, "@" + d)
+            if d.endswith(")") and self.rng.random() < 0.3:
+                head, _, arg = d[:-1].partition("(")
+                self.lines.append("    " * ind + "@" + head + "(\n" + "    " * (ind + 1) + arg + "\n" + "    " * ind + ")")
+                self.features.add("deco-multiline")
+            else:
+                self.emit(ind, "@" + d)
+            if self.rng.random() < 0.05:
+                self.emit(ind, "# between decorators")
             self.features.add("deco:" + d.split("(")[0].split(".")[-1])
         is_async = self.rng.random() < (0.5 if self.profile == "history" else 0.12)
         if is_async:
             self.features.add("async" + ("-decorated" if decos else ""))
-        self.emit(ind, ("async " if is_async else "") + f"def {name}(self=None, *args):")
+        if self.rng.random() < 0.1:
+            self.lines.append("    " * ind + ("async " if is_async else "") + f"def {name}(self=None,\n" + "    " * (ind + 2) + "*args):")
+            self.features.add("header-multiline")
+        else:
+            self.emit(ind, ("async " if is_async else "") + f"def {name}(self=None, *args):")
         sub = "init" if (kind == "class" and name == "__init__") else "func"
         if sub == "init" or self.rng.random() < 0.35:
             self.body(sub, depth + 1, ind + 1)
@@ -1105,23 +1190,23 @@ def walk_objects(mod):
     yield from rec(mod, ())
 
 
-def source_tables():
-    """The decorator -> label tables as the source states them (read through the translator's whitelisted parser)."""
-    from harness.common.framework import REPO
-    t = c01_tables._tables(ast.parse((REPO / "src/_griffe/agents/visitor.py").read_text()))
-    labels = {}
-    for k, v in t["builtin_decorators"] + t["stdlib_decorators"]:
-        labels.setdefault(k, set(v))
-    return labels
+# The documented decorator -> label table (mirror of Model/C01_content.v:doc_labels, compared with it on every run;
+# kept here so that the direct checks and search() need neither the model nor the tables of the tree under test).
+DOC_LABELS = {
+    "property": {"property"}, "staticmethod": {"staticmethod"}, "classmethod": {"classmethod"},
+    "abc.abstractmethod": {"abstractmethod"}, "functools.cache": {"cached"}, "functools.cached_property": {"cached", "property"},
+    "cached_property.cached_property": {"cached", "property"}, "functools.lru_cache": {"cached"}, "dataclasses.dataclass": {"dataclass"},
+}
+_TABLES = DOC_LABELS
 
 
-_TABLES = None
+def check_doc_table(ctx):
+    got = {p: set(ls) for p, ls in ctx.model([["doc-labels"]])[0]}
+    if got != DOC_LABELS:
+        ctx.tie_failure("oracle", "documented decorator table: harness mirror vs Model/C01_content.v:doc_labels", {"model": sorted(got), "harness": sorted(DOC_LABELS)}, None)
 
 
 def expected_deco_labels(node, import_map):
-    global _TABLES
-    if _TABLES is None:
-        _TABLES = source_tables()
     ab = Abstraction("m", False)
     ab.import_map = import_map
     out = set()
@@ -1274,6 +1359,22 @@ def direct_checks(case, tree, mod, rec):
                     expl = {"instance-attribute"}
                 if expl is not None and set(m.labels) != expl:
                     fails.append(("labels", f"{where}: attribute {name!r} has labels {sorted(m.labels)}, expected {sorted(expl)}", None))
+            # Griffe's documented forwarding rule on the plainest shape: a name re-assigned by statements of the level's own
+            # statement list keeps the docstring of an earlier assignment when the later one has none of its own
+            if not m.is_alias and m.kind.value == "attribute" and len(bs1) >= 2 and \
+                    all(b["kind"] == "attribute" and b["direct"] and not b.get("instance") for b in bs1):
+                doc = None
+                for b in bs1:
+                    st = idx.get(b["lineno"])
+                    i = next((k for k, x in enumerate(body) if x is st), None)
+                    nxt = body[i + 1] if i is not None and i + 1 < len(body) else None
+                    if isinstance(nxt, ast.Expr) and isinstance(nxt.value, ast.Constant) and isinstance(nxt.value.value, str):
+                        doc = nxt.value
+                exp_span = (doc.lineno, doc.end_lineno) if doc is not None else None
+                got_span = (m.docstring.lineno, m.docstring.endlineno) if m.docstring is not None else None
+                if got_span != exp_span:
+                    fails.append(("doc-forward", f"{where}: attribute {name!r} re-assigned at this level has docstring span {got_span}, "
+                                                 f"the last docstring among its assignments is at {exp_span}", None))
         for name in obj.members:
             if name not in sup and not name.endswith("/*"):
                 fails.append(("names-extra", f"{where}: member {name!r} is bound by no supported statement of this level", None))
@@ -1500,6 +1601,16 @@ def runtime_checks(case, tree, mod):
         direct_only = all(b["direct"] for b in supported_bindings(tree.body).get("__all__", [])) and not any(
             isinstance(s, ast.AugAssign) and not (isinstance(s.target, ast.Name) and s.target.id == "__all__" and s in tree.body)
             for s in ast.walk(tree) if isinstance(s, ast.AugAssign) and isinstance(s.target, ast.Name) and s.target.id == "__all__")
+        # method calls on __all__ as statements: compared only when each is a plain statement of the module body and is
+        # `__all__.extend(<one argument>)` / `__all__.append(<one argument>)` (anything else CPython may execute
+        # conditionally, in another scope, or with an effect Griffe documents not to follow)
+        for s in ast.walk(tree):
+            if isinstance(s, ast.Expr):
+                c = all_method_call(s)
+                if c is not None and c[0] == "__all__" and not (any(s is t for t in tree.body) and c[1] in ("extend", "append")
+                                                                and len(s.value.args) == 1 and not s.value.keywords
+                                                                and not isinstance(s.value.args[0], ast.Starred)):
+                    direct_only = False
         if direct_only and all(e.startswith("s:") for e in ex) and isinstance(ns["__all__"], (list, tuple)):
             if [e[2:] for e in ex] != list(ns["__all__"]):
                 fails.append(("exports", f"exports {ex} but the executed module has __all__ = {ns['__all__']!r}", None))
@@ -1570,7 +1681,7 @@ class TGen:
     def stmt(self, ind, depth, ctx):
         """ctx: dict(func=bool, async_=bool, loop=bool, cls=bool)"""
         r = self.rng
-        simple = ["assign", "chain", "tuple", "star", "ann", "annval", "annattr", "annsub", "aug", "augall", "all", "import", "importfrom", "expr", "doc",
+        simple = ["assign", "chain", "tuple", "star", "ann", "annval", "annattr", "annsub", "aug", "augall", "allcall", "all", "import", "importfrom", "expr", "doc",
                   "del", "pass", "assert", "global", "raise", "typealias", "walrus", "selfattr"]
         compound = ["def", "asyncdef", "class", "if", "iftc", "for", "while", "with", "try", "trystar", "tryfinally", "match", "init"]
         if ctx["func"]:
@@ -1603,6 +1714,9 @@ class TGen:
             self.emit(ind, f"{n()} {r.choice(['+=', '-=', '|=', '//='])} {e()}")
         elif kind == "augall":
             self.emit(ind, f"__all__ {r.choice(['+=', '-=', '*='])} {r.choice(['[\"a\"]', 'os.__all__', 'x', '(\"a\",)', 'f()', '[1]'])}")
+        elif kind == "allcall":
+            self.emit(ind, f"{r.choice(['__all__', '__all__', 'a.__all__', 'f().__all__', 'x'])}.{r.choice(['extend', 'append', 'remove', 'sort'])}"
+                           f"({r.choice(['', '[\"a\"]', '\"a\"', 'os.__all__', 'x', '*a', '1', '[1]', 'k=1', '[\"a\"], 2', 'f()', '[a.b.c]'])})")
         elif kind == "all":
             self.emit(ind, f"__all__{r.choice(['', ': list[str]'])} = {r.choice(['[\"a\", \"b\"]', '[]', 'None', 'f()', '[a, *b]', 'x.__all__ + y.__all__', '[1, 2]', '{\"a\"}', '\"ab\"', '[a.b.c]', '[f\"x\"]'])}")
         elif kind == "import":
@@ -1743,6 +1857,199 @@ def replay_witnesses(ctx):
         return griffe.visit("m", filepath=p, code=src)
     m = visit(WITNESS["C01-F6"])
     ctx.witness("C01-F6", "f" not in m.members)
+
+
+# =====================================================================================================================
+# source text as a layout tree (Model/C01_layout.v): which physical lines belong to which statement
+# =====================================================================================================================
+class NotBlockForm(Exception):
+    """The source is outside the block-form fragment (a compound statement with its body on the header line, `a; b`)."""
+
+
+class LayoutBuilder:
+    """Cuts a source text into the layout tree of Model/C01_layout.v using CPython's positions.  The check then asks the
+    extracted model to render the tree back (must give the text) and to number it (must give CPython's line numbers)."""
+
+    def __init__(self, src, mname, is_init):
+        self.lines = src.splitlines()
+        self.ab = Abstraction(mname, is_init)
+        self.expected_occ = []          # [tag, first, last] in the order of Model.C01_layout.occ_list
+
+    @staticmethod
+    def first_line(s):
+        return s.decorator_list[0].lineno if getattr(s, "decorator_list", None) else s.lineno
+
+    def cut(self, a, b):
+        """lines a..b-1 (1-based)"""
+        return self.lines[a - 1:b - 1]
+
+    def items(self, stmts, pos, top=False):
+        out = []
+        for s in stmts:
+            first = self.first_line(s)
+            if first < pos:
+                raise NotBlockForm(f"line {first}: statement starts on a line already taken")
+            lay, pos = self.item(s, self.cut(pos, first), first, top)
+            out.append(lay)
+        return out, pos
+
+    def block(self, hline, stmts):
+        """header lines from hline up to the first statement of the block, then the block"""
+        f = self.first_line(stmts[0])
+        if f <= hline:
+            raise NotBlockForm(f"line {hline}: body on the header line")
+        body, pos = self.items(stmts, f)
+        return self.cut(hline, f), body, pos
+
+    def keyword_line(self, pos, limit, word):
+        for ln in range(pos, limit):
+            if self.lines[ln - 1].strip().startswith(word):
+                return ln
+        raise NotBlockForm(f"no `{word}` line between {pos} and {limit}")
+
+    def sub(self, gap, hline, stmts, handler):
+        header, body, pos = self.block(hline, stmts)
+        return ["sub", gap, header, handler, body], pos
+
+    def kw_sub(self, pos, stmts, word):
+        k = self.keyword_line(pos, self.first_line(stmts[0]), word)
+        return self.sub(self.cut(pos, k), k, stmts, False)
+
+    def item(self, s, gap, first, top=False):
+        if isinstance(s, (ast.FunctionDef, ast.AsyncFunctionDef, ast.ClassDef)):
+            decos = []
+            dl = s.decorator_list
+            for i, d in enumerate(dl):
+                nxt = dl[i + 1].lineno if i + 1 < len(dl) else s.lineno
+                if nxt <= d.lineno:
+                    raise NotBlockForm("two decorators on one line")
+                decos.append([self.ab.deco(d), self.cut(d.lineno, nxt)])
+            is_cls = isinstance(s, ast.ClassDef)
+            self.expected_occ.append(["class" if is_cls else "function", first, s.end_lineno])
+            if not is_cls:
+                self.expected_occ.append(["property", s.lineno, s.end_lineno])
+            header, body, pos = self.block(s.lineno, s.body)
+            if pos != s.end_lineno + 1:
+                raise NotBlockForm("end_lineno is not the last line of the body")
+            if is_cls:
+                return ["class", gap, decos, header, s.name, body], pos
+            return ["def", gap, decos, header, s.name, isinstance(s, ast.AsyncFunctionDef), body], pos
+        if isinstance(s, ast.If):
+            header, body, pos = self.block(s.lineno, s.body)
+            tc = ast.unparse(s.test) in TC_TESTS
+            if not s.orelse:
+                return ["if", gap, header, tc, body, [], [], []], pos
+            o = s.orelse[0]
+            if len(s.orelse) == 1 and isinstance(o, ast.If) and self.lines[o.lineno - 1][o.col_offset:o.col_offset + 4] == "elif":
+                orelse, pos = self.items(s.orelse, pos)
+                return ["if", gap, header, tc, body, [], [], orelse], pos
+            f = self.first_line(o)
+            k = self.keyword_line(pos, f, "else")
+            egap, eheader = self.cut(pos, k), self.cut(k, f)
+            orelse, pos = self.items(s.orelse, f)
+            return ["if", gap, header, tc, body, egap, eheader, orelse], pos
+        if isinstance(s, (ast.For, ast.AsyncFor, ast.While)):
+            c1, pos = self.sub(gap, s.lineno, s.body, False)
+            ch = [c1]
+            if s.orelse:
+                c2, pos = self.kw_sub(pos, s.orelse, "else")
+                ch.append(c2)
+            return ["block", ch], pos
+        if isinstance(s, (ast.With, ast.AsyncWith)):
+            c1, pos = self.sub(gap, s.lineno, s.body, False)
+            return ["block", [c1]], pos
+        if isinstance(s, (ast.Try, getattr(ast, "TryStar", ast.Try))):
+            c1, pos = self.sub(gap, s.lineno, s.body, False)
+            ch = [c1]
+            for h in s.handlers:
+                c, pos = self.sub(self.cut(pos, h.lineno), h.lineno, h.body, True)
+                ch.append(c)
+            if s.orelse:
+                c, pos = self.kw_sub(pos, s.orelse, "else")
+                ch.append(c)
+            if s.finalbody:
+                c, pos = self.kw_sub(pos, s.finalbody, "finally")
+                ch.append(c)
+            return ["block", ch], pos
+        if isinstance(s, ast.Match):
+            ch = []
+            pos = None
+            for i, c in enumerate(s.cases):
+                if i == 0:
+                    cl, pos = self.sub(gap, s.lineno, c.body, False)       # `match` line and first `case` line
+                else:
+                    k = c.pattern.lineno
+                    cl, pos = self.sub(self.cut(pos, k), k, c.body, False)
+                ch.append(cl)
+            return ["block", ch], pos
+        if isinstance(s, ast.Expr) and isinstance(s.value, ast.Constant) and isinstance(s.value.value, str):
+            v = s.value
+            self.expected_occ.append(["doc", v.lineno, v.end_lineno])
+            return ["doc", gap, self.cut(first, v.lineno), self.cut(v.lineno, v.end_lineno + 1), self.cut(v.end_lineno + 1, s.end_lineno + 1)], s.end_lineno + 1
+        self.expected_occ.append(["leaf", first, s.end_lineno])
+        old = self.ab.stmt(s, top) if isinstance(s, (ast.Assign, ast.AnnAssign, ast.AugAssign, ast.Import, ast.ImportFrom, ast.Expr)) else ["other"]
+        return ["leaf", gap, self.cut(first, s.end_lineno + 1), old], s.end_lineno + 1
+
+    def module(self, tree):
+        items, pos = self.items(tree.body, 1, top=True)
+        return items, self.lines[pos - 1:]
+
+
+def layout_check(ctx, cases, views):
+    """(O) for the layout model: the extracted [render_list] gives back the source text, [number_list] gives CPython's line
+    numbers (all four views equal those computed from the ast), [occ_list] lists the spans CPython's positions give, and
+    slicing by each of them returns the item's text (what theorem C01_slice_reported_span proves)."""
+    todo = []
+    for c, view in zip(cases, views):
+        if len(view) != 4:
+            continue
+        try:
+            lb = LayoutBuilder(c["source"], c["mname"], c["is_init"])
+            items, trailing = lb.module(ast.parse(c["source"]))
+        except NotBlockForm as e:
+            ctx.observe("layout", "not-block-form")
+            ctx.count("layout_skipped")
+            continue
+        todo.append((c, view, lb, items, trailing))
+    outs = ctx.model([["layout", c["mname"], items] for c, _v, _lb, items, _t in todo])
+    for (c, view, lb, items, trailing), out in zip(todo, outs):
+        small = {"source": c["source"], "is_init": c["is_init"], "mname": c["mname"]}
+        if not isinstance(out, list) or len(out) != 4:
+            ctx.tie_failure("harness", "layout tree rejected by the model decoder", out, small)
+            continue
+        text, wf, lviews, occs = out
+        ctx.count("layouts_checked")
+        ctx.observe("layout", "gaps" if any(True for _ in _gaps(items)) else "no-gaps")
+        if text + trailing != c["source"].splitlines():
+            ctx.tie_failure("oracle", "render_list (layout tree) vs the source text", first_diff(text + trailing, c["source"].splitlines()), small)
+        if wf != 1:
+            ctx.tie_failure("oracle", "a layout cut from a real source is not well_formed", None, small)
+        if lviews != view:
+            ctx.tie_failure("oracle", "number_list (layout tree) vs CPython's line numbers (views from the ast)", first_diff(lviews, view), small)
+        got = [[o[0][0], o[1], o[2]] for o in occs]
+        if got != lb.expected_occ:
+            ctx.tie_failure("oracle", "occ_list (layout tree) vs the spans CPython's positions give", first_diff(got, lb.expected_occ), small)
+        bad = [o for o in occs if o[3] != 1]
+        if bad:
+            ctx.tie_failure("extraction", "slice by a reported span differs from the item text (contradicts C01_slice_reported_span)", bad[:2], small)
+        ctx.count("occurrences_sliced", len(occs))
+
+
+def _gaps(items):
+    for it in items:
+        if it[0] in ("leaf", "doc", "def", "class", "if", "sub") and it[1]:
+            yield it
+        if it[0] in ("def", "class"):
+            yield from _gaps(it[-1])
+        elif it[0] == "if":
+            if it[5]:
+                yield it
+            yield from _gaps(it[4])
+            yield from _gaps(it[7])
+        elif it[0] == "block":
+            yield from _gaps(it[1])
+        elif it[0] == "sub":
+            yield from _gaps(it[4])
 
 
 # =====================================================================================================================
@@ -1949,7 +2256,7 @@ def history_stream(ctx):
                 ctx.property_failure(small, "griffe.visit raised " + r["raised"])
             for n, d, f in r["fails"]:
                 ctx.property_failure(small, f"{n}: {d}" + ("" if verdict == "isolated" else " (seen in a sequence, not reproduced in a fresh interpreter)"), f)
-            if verdict == "isolated":
+            if verdict == "isolated" and (r["raised"] or any(f is None for _n, _d, f in r["fails"])):
                 ctx.c01_tainted = True
         return          # the state of that interpreter is suspect from here on
 
@@ -1981,7 +2288,8 @@ def flush_pending(ctx, c, small, expected, hidx, pending, label):
         if verdict == "unreproducible":
             note = " (seen in-process; not reproduced in a fresh interpreter, alone or after the same history)"
         else:
-            note, confirmed = "", True          # reproduces alone in a fresh interpreter: a self-contained failing input
+            # reproduces alone in a fresh interpreter: a self-contained failing input, if the property itself fails on it
+            note, confirmed = "", any(kind == "prop" for kind, _a, _b in pending)
     for kind, a, b in pending:
         if kind == "tie":
             ctx.tie_failure("correspondence", a, b, small)
@@ -2003,6 +2311,7 @@ def check_structural(ctx, cases, label):
         if v != o:
             ctx.tie_failure("correspondence", "Coq lowering of raw nodes (Gen/C01_dispatch tables) vs harness lowering ast -> stmt",
                             first_diff(v, o), {"source": c["source"], "is_init": c["is_init"], "mname": c["mname"]})
+    layout_check(ctx, cases, views)
     vins = {}
     traces = []
     for c, tree, view in zip(cases, trees, views):
@@ -2241,6 +2550,7 @@ def corpus_cases():
 
 def explore(ctx):
     replay_witnesses(ctx)
+    check_doc_table(ctx)
     corpus = corpus_cases()
     if corpus:
         check_structural(ctx, corpus, "corpus")
